@@ -33,6 +33,17 @@ REGIONS = [
     ("crates/events/src/serde_formats.rs", 86, 369), ("crates/events/src/process.rs", 51, 85), ("crates/signals/src/lib.rs", 124, 393),
     ("crates/project-origins/src/lib.rs", 150, 393),
 ]
+REGIONS2 = [
+    ("crates/supervisor/src/job/job.rs", 210, 356), ("crates/lib/src/action/handler.rs", 100, 162),
+    ("crates/cli/src/config.rs", 60, 330), ("crates/cli/src/config.rs", 565, 745),
+    ("crates/cli/src/args/command.rs", 205, 307), ("crates/cli/src/args/filtering.rs", 330, 496), ("crates/cli/src/args/events.rs", 292, 346),
+    ("crates/events/src/event.rs", 165, 205), ("crates/lib/src/filter.rs", 1, 74), ("crates/lib/src/watched_path.rs", 1, 82),
+    ("crates/cli/src/lib.rs", 50, 140), ("crates/cli/src/args.rs", 160, 185), ("crates/supervisor/src/job/task.rs", 375, 440),
+    ("crates/supervisor/src/job/messages.rs", 1, 120), ("crates/events/src/process.rs", 1, 51), ("crates/ignore-files/src/filter.rs", 440, 520),
+    ("crates/ignore-files/src/discover.rs", 306, 440), ("crates/filterer/globset/src/lib.rs", 232, 300),
+]
+if "--set2" in sys.argv:
+    REGIONS = REGIONS2
 SKIP_LINE = re.compile(r"^\s*(//|///|#\[|trace!|debug!|info!|warn!|error!|use |\}|\{|\)|\]|$)")
 SWAPS = [(" == ", " != "), (" != ", " == "), (" < ", " >= "), (" <= ", " > "), (" > ", " <= "), (" >= ", " < "), (" && ", " || "), (" || ", " && "),
          ("true", "false"), ("false", "true"), ("continue;", "break;"), ("Loop::Skip", "Loop::Normally"), ("Loop::Normally", "Loop::Skip"),
